@@ -19,6 +19,7 @@ let () =
             (cstate_of cache) (nc = "1") (List.map hdr_of hs)));
   reg "loopmf.loop" (fun (host :: hs) -> b2s (loop_detected (cfg_of (bytes_of_hex host)) (List.map hdr_of hs)));
   reg "loopmf.offset" (fun [v] -> match parse_offset (bytes_of_hex v) with None -> "fail" | Some x -> "ok " ^ string_of_z x);
-  reg "loopmf.substr" (fun [n; h] -> b2s (is_substr (bytes_of_hex n) (bytes_of_hex h)));
+  reg "loopmf.substr" (fun [n; h] -> b2s (str_list_is_substr (bytes_of_hex h) (bytes_of_hex n)));
+  reg "loopmf.mffirst" (fun hs -> string_of_z (mf_first (List.map hdr_of hs)));
   reg "loopmf.addvia" (fun (host :: maj :: min :: hs) ->
     hex_of_bytes (fwd_via (cfg_of (bytes_of_hex host)) (n_of_string maj) (n_of_string min) (List.map hdr_of hs)))
